@@ -740,7 +740,8 @@ func checkReplay2(prog *SX, seed uint64) (what string, nontrivial bool, isD2 boo
 	var pruned rapid.VerifRec
 	prunePanic := runTB(func() { pruned = rapid.VerifPrune(rec) })
 	if prunePanic != nil {
-		return "", hasDiscard, isD2 // unfinished discarded group: shrink is never called on such a recording
+		// prune() is what shrink() starts with on the recording of a failing run; a panic there kills Check
+		return fmt.Sprintf("prune() of the recording panics: %v", prunePanic), hasDiscard, isD2
 	}
 	d4, e4, _ := runOnce(prog, rapid.VerifBufStream(pruned.Data, false))
 	if d1 != d4 || outcomeClass(e1) != outcomeClass(e4) {
